@@ -75,21 +75,32 @@ fn main() {
     println!("seq {}", seq.join(";"));
     let m = Arc::new(m);
     let ivs = Arc::new(ivs);
-    let threads: Vec<_> = (0..8)
+    let expected = Arc::new(seq);
+    let threads: Vec<_> = (0..8usize)
         .map(|t| {
             let m = Arc::clone(&m);
             let ivs = Arc::clone(&ivs);
+            let expected = Arc::clone(&expected);
             std::thread::spawn(move || {
-                // every thread walks the whole list, starting at a different offset, several times
+                // every thread walks the list many times from its own offset and stride, issuing each
+                // query several times in a row (repeats are what a cache or memo inside the machine needs)
                 let n = ivs.len();
-                let mut out = vec![String::new(); n];
-                for round in 0..20 {
+                let mut bad: Option<String> = None;
+                if n == 0 {
+                    return "ok".to_string();
+                }
+                for round in 0..300usize {
                     for k in 0..n {
-                        let idx = (k + t * 7 + round) % n;
-                        out[idx] = answer(&m, &ivs[idx]);
+                        let idx = (k * (1 + t % 3) + t * 7 + round) % n;
+                        for _ in 0..(1 + (t + k) % 3) {
+                            let a = answer(&m, &ivs[idx]);
+                            if a != expected[idx] && bad.is_none() {
+                                bad = Some(format!("thread {} query {} got [{}] expected [{}]", t, idx, a, expected[idx]));
+                            }
+                        }
                     }
                 }
-                out.join(";")
+                bad.unwrap_or_else(|| "ok".to_string())
             })
         })
         .collect();
